@@ -306,7 +306,7 @@ def gatewayCase (hdr : String) (lines : List String) : List String :=
     let vs0809 := Spec.c0809 c.cfg tr
     let ms :=
       mon "C01" (Spec.c01 c.cfg tr) ++ mon "C03" (Spec.c03 c.cfg tr) ++ mon "C04" (Spec.c04 c.cfg tr) ++
-      mon "C07" (Spec.c07 c.cfg tr) ++
+      mon "C06" (Spec.c06 c.cfg tr) ++ mon "C07" (Spec.c07 c.cfg tr) ++
       mon "C08" ((vs0809.filter fun v => v.sig.startsWith "C08:").map fun v => { v with sig := (v.sig.drop 4).toString }) ++
       mon "C09" ((vs0809.filter fun v => v.sig.startsWith "C09:").map fun v => { v with sig := (v.sig.drop 4).toString }) ++
       mon "C10" (Spec.c10 tr tEnd) ++ mon "C11" (Spec.c11 tr) ++ mon "C13" (Spec.c13 c.cfg tr tEnd) ++
